@@ -1,5 +1,7 @@
 #!/usr/bin/env python3
-"""Self-tests of the machinery: `bigint` cross-checks the Java override against the pure TLA+ definitions."""
+"""Self-tests of the machinery: `bigint` cross-checks the Java override against the pure TLA+ definitions; `binding` shows that the
+trace specification is bound to the recorded execution: an untouched trace of the real node is accepted, the same trace with one
+recorded field altered, or with one recorded step removed, is rejected."""
 import os, random, subprocess, sys, shutil
 ROOT = os.path.dirname(os.path.dirname(os.path.abspath(__file__)))
 SPEC = os.path.join(ROOT, "spec")
@@ -47,5 +49,58 @@ ASSUME PrintT("XCHECK-OK")
     print("bigint cross-check ok (300 operand pairs)")
     return 0
 
+def binding():
+    import json
+    sys.path.insert(0, os.path.join(ROOT, "bin"))
+    import vlib
+    d = os.path.join(WORK, "binding")
+    shutil.rmtree(d, ignore_errors=True)
+    os.makedirs(d)
+    scn = {"id": "B1", "world": "W2u", "family": "staking", "steps": [
+        {"op": "block", "txs": [{"id": "t1", "type": "Unbond", "from": "o1", "check": True, "args": {"pub": "v1", "coin": "BIP", "value": "100u"}},
+                                {"id": "t2", "type": "Delegate", "from": "a1", "check": True, "args": {"pub": "v1", "coin": "BIP", "value": "30u"}}]},
+        {"op": "block", "txs": [{"id": "t3", "type": "Send", "from": "a2", "check": True, "args": {"coin": "BIP", "to": "a3", "value": "5u"}}]},
+        {"op": "block", "evidence": ["v4"]}, {"op": "skip", "n": 4}]}
+    open(os.path.join(d, "scn.ndjson"), "w").write(json.dumps(scn) + "\n")
+    trace = os.path.join(d, "trace.ndjson")
+    subprocess.run([os.path.join(WORK, "bin/driver"), "-scenarios", os.path.join(d, "scn.ndjson"), "-out", trace, "-work", os.path.join(d, "db")],
+                   check=True, stdout=subprocess.DEVNULL, stderr=subprocess.DEVNULL)
+    recs = [json.loads(l) for l in open(trace)]
+
+    def judge(name, rs):
+        p = os.path.join(d, name + ".ndjson")
+        with open(p, "w") as f:
+            for r in rs:
+                f.write(json.dumps(r) + "\n")
+        res = vlib.run_tlc_trace(p, os.path.join(d, "meta-" + name))
+        bad = [(v.get("prop"), v.get("clause")) for v in res["viol"] + res["drift"] if (v.get("prop"), v.get("clause")) != ("C26", "ChargedOnce")]
+        return res["ok"], bad
+
+    ok, bad = judge("intact", recs)
+    print("intact trace: accepted=%s, failed clauses=%s" % (ok, bad))
+    good = ok and not bad
+    # 1. one recorded balance altered by one pip in the state after a delivery
+    i = next(k for k, r in enumerate(recs) if r.get("kind") == "DeliverTx" and r["tx"]["id"] == "t3")
+    alt = json.loads(json.dumps(recs))
+    alt[i]["st"]["bal"]["a3"]["0"] = str(int(alt[i]["st"]["bal"]["a3"]["0"]) + 1)
+    ok1, bad1 = judge("altered-balance", alt)
+    print("balance of a3 altered by 1 pip after t3: failed clauses=%s" % sorted(set(bad1)))
+    # 2. one recorded response code altered
+    alt = json.loads(json.dumps(recs))
+    alt[i]["resp"]["code"] = 107
+    ok2, bad2 = judge("altered-code", alt)
+    print("response code of t3 altered: failed clauses=%s" % sorted(set(bad2)))
+    # 3. one recorded step removed (as if a hook were missing): the EndBlock of the second block
+    j = next(k for k, r in enumerate(recs) if r.get("kind") == "EndBlock" and k > i)
+    ok3, bad3 = judge("removed-step", recs[:j] + recs[j + 1:])
+    print("EndBlock record removed: failed clauses=%s" % sorted(set(bad3)))
+    shutil.rmtree(d, ignore_errors=True)
+    if good and bad1 and bad2 and bad3:
+        print("BINDING-OK")
+        return 0
+    print("BINDING-FAILED")
+    return 1
+
+
 if __name__ == "__main__":
-    sys.exit({"bigint": bigint}[sys.argv[1]]())
+    sys.exit({"bigint": bigint, "binding": binding}[sys.argv[1]]())
